@@ -30,6 +30,8 @@ import (
 	"sync"
 	"unicode"
 
+	jsonv2 "github.com/go-json-experiment/json"
+	"github.com/go-json-experiment/json/jsontext"
 	jsonv1 "github.com/go-json-experiment/json/v1"
 )
 
@@ -65,6 +67,7 @@ var c9Corpus = []c9T{
 	c9tf[C9NamedStr](), c9tf[C9NamedInt](), c9tf[C9NamedBytes](), c9tf[[]C9Byte](), c9tf[[3]byte](), c9tf[C9EmbMV](), c9tf[C9EmbTVPtr](),
 	c9tf[C9EmbPtr](), c9tf[C9EmbHidden](), c9tf[C9EmbHiddenPtr](), c9tf[C9EmbBoth](), c9tf[C9EmbInt](), c9tf[C9Tree](),
 	c9tf[C9Iface](), c9tf[C9MarshalerI](), c9tf[C9TextI](), c9tf[C9Fold](),
+	c9tf[C9PR](), c9tf[C9EmbPR](), c9tf[C9EmbPRv](), c9tf[C9EmbPR2](), c9tf[C9EmbPR3](), c9tf[C9EmbPR4](),
 }
 
 var c9Keys = []c9T{
@@ -75,7 +78,9 @@ var c9Keys = []c9T{
 	//   *C9TP   (pointer key)                finding F6: the classic package cannot unmarshal into pointer-keyed maps
 }
 
-var c9Embeds = []c9T{c9tf[C9E1](), c9tf[C9E2](), c9tf[*C9E1](), c9tf[*C9E2](), c9tf[C9NamedInt](), c9tf[C9Tree]()}
+var c9PtrKeys = []c9T{c9tf[*C9TP](), c9tf[*C9TV](), c9tf[*C9TPInt](), c9tf[*C9TInt]()}
+
+var c9Embeds = []c9T{c9tf[C9E1](), c9tf[C9E2](), c9tf[*C9E1](), c9tf[*C9E2](), c9tf[C9NamedInt](), c9tf[C9Tree](), c9tf[C9PR](), c9tf[*C9PR](), c9tf[*C9PR]()}
 
 var c9GoNames = []string{"A", "B", "C", "Ab", "AB", "Name", "X", "A_b", "E", "V", "Kids", "Kind", "Sks", "Σς"}
 var c9TagNames = []string{"a", "b", "A", "x", "name", "NAME", "a-b", "a.b", "$", "X_y", "Ab", "é", "B", "v", "a2", "0", "kind", "sks", "σς", "ǆ", "straße", "k_k"}
@@ -104,6 +109,12 @@ func (g c9Gen) typ(depth int) c9T {
 		return c9T{reflect.ArrayOf(n, e.a), reflect.ArrayOf(n, e.b)}
 	case k == 9:
 		key := c9Keys[g.r.IntN(len(c9Keys))]
+		if g.r.IntN(5) == 0 {
+			// pointer key types whose pointer implements encoding.TextMarshaler (value and pointer receivers): both
+			// packages MARSHAL them (a nil key is the empty name); encoding/json cannot UNMARSHAL into them (finding
+			// F6, fixed probe), so types containing such a map take part in Marshal/MarshalIndent/Encode only.
+			key = c9PtrKeys[g.r.IntN(len(c9PtrKeys))]
+		}
 		e := g.typ(depth - 1)
 		return c9T{reflect.MapOf(key.a, e.a), reflect.MapOf(key.b, e.b)}
 	default:
@@ -412,8 +423,27 @@ func (g c9Gen) fill(a, b reflect.Value, depth int) {
 			return
 		}
 		ma, mb := reflect.MakeMap(ta), reflect.MakeMap(b.Type())
+		seenKeys := map[string]bool{}
 		for i := 0; i < n; i++ {
 			ka, kb := g.val(c9T{ta.Key(), b.Type().Key()}, 0)
+			if ta.Key().Kind() == reflect.Pointer {
+				// two distinct pointers with the same text (a nil pointer counts as the empty text) would be two members with the same name, whose relative
+				// order neither package defines: keep the texts of pointer keys distinct
+				kd := "" // the member name both packages write for the key: "" for a nil pointer, else MarshalText
+				if !ka.IsNil() {
+					if tm, ok := ka.Interface().(interface{ MarshalText() ([]byte, error) }); ok {
+						if txt, err := tm.MarshalText(); err == nil {
+							kd = string(txt)
+						} else {
+							kd = "\x00error"
+						}
+					}
+				}
+				if seenKeys[kd] {
+					continue
+				}
+				seenKeys[kd] = true
+			}
 			va, vb := g.val(c9T{ta.Elem(), b.Type().Elem()}, depth-1)
 			ma.SetMapIndex(ka, va)
 			mb.SetMapIndex(kb, vb)
@@ -432,6 +462,7 @@ func (g c9Gen) fill(a, b reflect.Value, depth int) {
 var c9DynTypes = []c9T{
 	c9tf[bool](), c9tf[float64](), c9tf[float64](), c9tf[string](), c9tf[string](), c9tf[[]any](), c9tf[map[string]any](), c9Num, c9Raw,
 	c9tf[int](), c9tf[uint8](), c9tf[[]int](), c9tf[map[string]int](), c9tf[C9E1](), c9tf[*C9E1](), c9tf[C9MV](), c9tf[*C9MV](), c9tf[C9MP](), c9tf[*C9MP](),
+	c9tf[C9EmbPR](), c9tf[*C9EmbPR](), c9tf[C9EmbPR2](), c9tf[C9PR](), c9tf[map[string]C9EmbPR](), c9tf[[1]C9EmbPR](), c9tf[map[*C9TP]int](),
 	c9tf[C9TV](), c9tf[*C9TP](), c9tf[C9TP](), c9tf[*int](), c9tf[*any](), c9tf[*string](), c9tf[C9Tree](), c9tf[*[]any](), c9tf[*map[string]any](), c9tf[[]byte](), c9tf[C9MInt](),
 }
 
@@ -879,6 +910,36 @@ func c9CheckMarshal(c *Ctx, w *c09Watch, slot int, g c9Gen, t c9T, desc string, 
 	if d2 := c9D(va); d2 != dump {
 		c.Violate("marshal-mutates-value", "v1.Marshal", []byte(desc+"|"+dump), detail())
 	}
+	// The same v1 semantics WITHOUT Deterministic (jsonv2.Marshal with DefaultOptionsV1 and Deterministic(false)): map
+	// members come out in iteration order through a different code path; the result must be the classic output up
+	// to the order of members (both sides are canonicalised; a text that cannot be canonicalised is not compared).
+	if strings.Contains(desc, "map[") && g.r.IntN(2) == 0 {
+		var b3 []byte
+		var e3 error
+		if !w.call(slot, "v2.Marshal(DefaultOptionsV1,Deterministic(false))", []byte(desc), func() {
+			b3, e3 = jsonv2.Marshal(ia, jsonv1.DefaultOptionsV1(), jsonv2.Deterministic(false))
+		}) {
+			c.Case("marshal-nondet:"+desc+"|"+dump, true)
+			d := detail()
+			d["v1_nondeterministic"], d["classic"], d["v1_err"] = c9Short(string(b3)), c9Short(string(b2)), fmt.Sprint(e3)
+			if e3 != nil {
+				c9Dbg("marshal-nondeterministic-success-mismatch", d)
+				c.Violate("marshal-nondeterministic-success-mismatch", "v2.Marshal(DefaultOptionsV1,Deterministic(false))", []byte(desc+"|"+dump), d)
+			} else {
+				c3, c2 := jsontext.Value(bytes.Clone(b3)), jsontext.Value(bytes.Clone(b2))
+				o := []jsontext.Options{jsontext.AllowDuplicateNames(true), jsontext.AllowInvalidUTF8(true)}
+				if c3.Canonicalize(o...) == nil && c2.Canonicalize(o...) == nil {
+					c.Hit("typed/marshal-nondeterministic/compared")
+					if !bytes.Equal(c3, c2) {
+						c9Dbg("marshal-nondeterministic-mismatch", d)
+						c.Violate("marshal-nondeterministic-mismatch", "v2.Marshal(DefaultOptionsV1,Deterministic(false))", []byte(desc+"|"+dump), d)
+					}
+				} else {
+					c.Hit("typed/marshal-nondeterministic/not-canonicalisable")
+				}
+			}
+		}
+	}
 	// MarshalIndent
 	if g.r.IntN(2) == 0 {
 		prefix, indent := c09Affixes[g.r.IntN(len(c09Affixes))], c09Affixes[g.r.IntN(len(c09Affixes))]
@@ -898,13 +959,39 @@ func c9CheckMarshal(c *Ctx, w *c09Watch, slot int, g c9Gen, t c9T, desc string, 
 	return b2
 }
 
-// c9FFFD attributes a byte difference to finding F1: invalid UTF-8 in a Go string is written by the classic package
-// as the six bytes \ufffd and by v1 as the three bytes EF BF BD.  The attribution holds only if respelling every
-// escape of the classic output that way makes the two outputs identical; it returns a kind suffix.
-func c9FFFD(v1out, classic []byte) string {
+// c9AlignSpellings walks the two outputs in step and allows exactly two local respellings, reporting which occurred:
+//
+//	F1   classic `\ufffd` (six bytes; under the `string` tag the backslash is itself escaped: seven)  ↔  v1 EF BF BD
+//	F11  classic raw U+2028/U+2029 (E2 80 A8|A9)                                                      ↔  v1 `\u2028`/`\u2029`
+//
+// Every other byte must be identical (a literal `\ufffd` that BOTH packages copied from a RawMessage stays put).
+func c9AlignSpellings(v1out, classic []byte) (fffd, u2028, ok bool) {
 	esc := []byte(c09BU + "fffd")
-	// (under the `string` tag the string is encoded twice and the escape's backslash is itself escaped)
-	if bytes.Contains(classic, esc) && bytes.Equal(c9RespellFFFD(classic), v1out) {
+	esc2 := append([]byte{0x5c}, esc...)
+	raw := []byte("\xef\xbf\xbd")
+	i, j := 0, 0
+	for i < len(classic) || j < len(v1out) {
+		switch {
+		case i < len(classic) && j < len(v1out) && classic[i] == v1out[j]:
+			i, j = i+1, j+1
+		case bytes.HasPrefix(classic[i:], esc2) && bytes.HasPrefix(v1out[j:], raw):
+			fffd, i, j = true, i+7, j+3
+		case bytes.HasPrefix(classic[i:], esc) && bytes.HasPrefix(v1out[j:], raw):
+			fffd, i, j = true, i+6, j+3
+		case bytes.HasPrefix(classic[i:], []byte("\u2028")) && bytes.HasPrefix(v1out[j:], []byte(c09BU+"2028")),
+			bytes.HasPrefix(classic[i:], []byte("\u2029")) && bytes.HasPrefix(v1out[j:], []byte(c09BU+"2029")):
+			u2028, i, j = true, i+3, j+6
+		default:
+			return false, false, false
+		}
+	}
+	return fffd, u2028, true
+}
+
+// c9FFFD attributes a byte difference to finding F1 alone (invalid UTF-8 in a Go string: the classic package writes
+// the six bytes \ufffd, v1 the three bytes EF BF BD); it returns a kind suffix.
+func c9FFFD(v1out, classic []byte) string {
+	if f, u, ok := c9AlignSpellings(v1out, classic); ok && f && !u {
 		return "[invalid-utf8-fffd-spelling]"
 	}
 	return ""
@@ -1119,7 +1206,14 @@ func c9FoldAmbiguous(t reflect.Type, amb, exact map[string]bool, seen map[reflec
 	}
 }
 
+// c9HasPtrKeyMap: does the type (or a type an interface field may hold from c9DynTypes) contain a pointer-keyed map?
+func c9HasPtrKeyMap(desc string) bool { return strings.Contains(desc, "map[*") }
+
 func c9CheckUnmarshal(c *Ctx, w *c09Watch, slot int, t c9T, desc string, in []byte, populated bool, seed uint64) (clean bool) {
+	if c9HasPtrKeyMap(desc) {
+		c.Hit("typed/unmarshal/skipped-pointer-key-map")
+		return false
+	}
 	o := c9RunUnmarshal(c, w, slot, t, in, populated, seed)
 	if o.skipped {
 		return false
